@@ -3,8 +3,10 @@
 
 G4  reads  <repo>/src/alpaqa/include/alpaqa/implementation/outer/internal/alm-helpers.tpp  (update_penalty_weights,
     initialize_penalty) and  .../implementation/outer/alm.tpp  (penalty selection, termination expression, exit, status
-    selection chain, Interrupted test, failure counter, tolerance update, out_of_iter/out_of_time, time_remaining, the call
-    of update_penalty_weights, the InnerSolveOptions initialisers)  and writes  coq/gen/AlmGen.v : Gallina definitions over
+    selection chain, Interrupted test, the read of ALM's own stop flag (`bool interrupted = stop_signal.stop_requested();`,
+    which must sit after the inner solve and after the Interrupted-inner return, before the exit test), failure counter,
+    tolerance update, out_of_iter/out_of_time, time_remaining, the call of update_penalty_weights, the InnerSolveOptions
+    initialisers)  and  outer/alm.hpp  (the statements of ALMSolver::stop())  and writes  coq/gen/AlmGen.v : Gallina definitions over
     `Num`, translated expression by expression (recursive descent over a restricted C++ expression grammar), statement
     shapes matched against the loop forms that occur.  theories/AlmGenEq.v proves every generated kernel equal to the
     kernel of the hand model Alm.v the theorems are about, so a source change breaks a proof obligation.
@@ -17,7 +19,7 @@ Restricted grammar
   cmp   := sum [('<'|'<='|'>'|'>='|'==') sum] ; sum := prod (('+'|'-') prod)* ; prod := un (('*'|'/') un)* ; un := '-' un | atom
   atom  := number | '(' expr ')' | identifier (params.x, ps.ε, SolverStatus::X, locals)
          | std::fmax/fmin/max/min(a,b) | std::abs(a) | std::clamp(a,lo,hi) | real_t(a) | V(i) | V(0) | V.squaredNorm()
-         | Σ->allFinite() | Σ->norm() | norm_inf(V) | decltype(time_elapsed){0}
+         | Σ->allFinite() | Σ->norm() | norm_inf(V) | decltype(time_elapsed){0} | stop_signal.stop_requested()
   stmt  := '{' stmt* '}' | if '(' expr ')' stmt [else stmt] | return ';' | for '(' index_t i = 0; i < e.rows(); ++i ')' stmt
          | [const] real_t x = expr ';' | x = expr ';' | Σ(i) = expr ';' | Σ.setConstant(expr) ';'
 Anything else -> OutOfGrammar with the offending text; the files then hold the REFERENCE kernels (= the hand model), the
@@ -32,6 +34,7 @@ VERIF = os.path.dirname(HERE)
 INC = "src/alpaqa/include/alpaqa"
 HELPERS = INC + "/implementation/outer/internal/alm-helpers.tpp"
 ALM = INC + "/implementation/outer/alm.tpp"
+ALM_HPP = INC + "/outer/alm.hpp"
 ACC_FILES = [("panoc", "inner/panoc.hpp", "PANOCStats"), ("zerofpr", "inner/zerofpr.hpp", "ZeroFPRStats"),
              ("pantr", "inner/pantr.hpp", "PANTRStats"), ("fista", "inner/fista.hpp", "FISTAStats"),
              ("panococp", "inner/panoc-ocp.hpp", "PANOCOCPStats")]
@@ -279,6 +282,9 @@ class P:
             if v.endswith(suffix) and v[:-len(suffix)] in self.env and self.env[v[:-len(suffix)]][0] == "vec":
                 self.eat("("); self.eat(")")
                 return (ty, "(%s %s)" % (fn, self.env[v[:-len(suffix)]][1]))
+        if (v + "()") in self.env and self.at("(") and self.peek(1) == ("op", ")"):
+            self.eat("("); self.eat(")")            # nullary member call bound by the caller (stop_signal.stop_requested())
+            return self.env[v + "()"]
         if v in self.vecs and self.at("("):
             self.eat("("); ik, iv = self.peek(); self.eat(); self.eat(")")
             if iv not in self.vecs[v]: self._bad("%s(%s)" % (v, iv))
@@ -523,14 +529,38 @@ def gen_alm(repo, D, Z, tables):
         raise OutOfGrammar("the termination test precedes the Interrupted test")
     benv = {"ps.ε": ("T", "eps"), "inner_converged": ("bool", "inner_converged"), "norm_e": ("T", "norm_e")}
     D.append(("g_alm_converged", "(P : alm_params (T:=T)) (eps : T) (inner_converged : bool) (norm_e : T) : bool", ex(flat(cm.group(1)), benv, "alm_converged", "bool"), "bool alm_converged = <this>;"))
-    xenv = {k: ("bool", k) for k in ("alm_converged", "out_of_iter", "out_of_time")}
-    D.append(("g_exit", "(alm_converged out_of_iter out_of_time : bool) : bool", ex(flat(one(r"bool\s+exit\s*=\s*([^;]+);", loop, "exit")), xenv, "exit", "bool"), "bool exit = <this>;"))
+    # ---- ALM's own stop flag: read once per outer iteration, after the inner solve and after the Interrupted-inner return
+    sm = [m_ for m_ in re.finditer(r"bool\s+interrupted\s*=\s*([^;]+);", loop)]
+    if len(sm) != 1:
+        raise OutOfGrammar("read of ALM's stop flag `bool interrupted = stop_signal.stop_requested();`: expected exactly one, found %d "
+                           "(the outer loop does not look at a stop flag of its own)" % len(sm))
+    sm = sm[0]
+    calls = [m_.start() for m_ in re.finditer(r"auto\s+ps\s*=\s*inner_solver\s*\(", loop)]
+    if len(calls) != 1:
+        raise OutOfGrammar("call of the inner solver `auto ps = inner_solver(...)` in the loop: expected exactly one, found %d" % len(calls))
+    xm = re.search(r"bool\s+exit\s*=", loop)
+    if not xm:
+        raise OutOfGrammar("`bool exit = ...` not found")
+    if sm.start() < calls[0]:
+        raise OutOfGrammar("ALM's stop flag is read BEFORE the inner solve (a request landing during the solve is seen one outer iteration late)")
+    if sm.start() < ib.end():
+        raise OutOfGrammar("ALM's stop flag is read before the Interrupted-inner return")
+    if sm.start() > xm.start():
+        raise OutOfGrammar("ALM's stop flag is read after the exit test")
+    if cm.start() > xm.start():
+        raise OutOfGrammar("the termination test follows the exit test")
+    D.append(("g_interrupted", "(stop_flag : bool) : bool", ex(flat(sm.group(1)), {"stop_signal.stop_requested()": ("bool", "stop_flag")}, "read of ALM's stop flag", "bool"),
+              "bool interrupted = <this>;   (stop_flag = the value of stop_signal's atomic flag at that moment; after the inner solve and the Interrupted-inner return)"))
+    xenv = {k: ("bool", k) for k in ("alm_converged", "out_of_iter", "out_of_time", "interrupted")}
+    D.append(("g_exit", "(alm_converged out_of_iter out_of_time interrupted : bool) : bool", ex(flat(one(r"bool\s+exit\s*=\s*([^;]+);", loop, "exit")), xenv, "exit", "bool"), "bool exit = <this>;"))
     eb = re.search(r"if\s*\(\s*exit\s*\)\s*\{(.*?return\s+s;\s*)\}", loop, flags=re.S)
     if not eb:
         raise OutOfGrammar("`if (exit) { ... return s; }` not found")
     if not re.search(r"if\s*\(Σ\)\s*\*Σ\s*=\s*Σ_curr;", eb.group(1)):
         raise OutOfGrammar("exit block does not hand back Σ_curr")
-    D.append(("g_exit_status", "(alm_converged out_of_time out_of_iter : bool) : status", ex(flat(one(r"s\.status\s*=\s*([^;]+);", eb.group(1), "status selection")), xenv, "status selection", "status"), "s.status = <this>;"))
+    if eb.start() < xm.start():
+        raise OutOfGrammar("`if (exit)` precedes `bool exit = ...`")
+    D.append(("g_exit_status", "(alm_converged out_of_time out_of_iter interrupted : bool) : status", ex(flat(one(r"s\.status\s*=\s*([^;]+);", eb.group(1), "status selection")), xenv, "status selection", "status"), "s.status = <this>;"))
     for fld, val, nm in (("ε", "ps.ε", "eps"), ("δ", "norm_e", "delta"), ("outer_iterations", "i + 1", "outer")):
         for blk, bn in ((ib.group(2), "Interrupted"), (eb.group(1), "exit")):
             got = flat(one(r"s\.%s\s*=\s*([^;]+);" % fld, blk, "s.%s in the %s block" % (fld, bn)))
@@ -558,6 +588,16 @@ def gen_alm(repo, D, Z, tables):
         if not ents or flat(re.sub(r"\.(\w+)\s*=\s*([^,]+),", "", ob)) != "":
             raise OutOfGrammar("InnerSolveOptions initialiser (%s): %r" % (name, flat(ob)))
         tables["g_opts_" + name] = [(k, flat(v)) for k, v in ents]
+    # ---- ALMSolver::stop() (outer/alm.hpp): the statements of its body, as written
+    hsrc = strip_comments(open(os.path.join(repo, ALM_HPP), encoding="utf-8").read())
+    sb = re.findall(r"void\s+stop\s*\(\s*\)\s*\{([^{}]*)\}", hsrc)
+    if len(sb) != 1:
+        raise OutOfGrammar("alm.hpp: expected exactly one `void stop() { ... }`, found %d" % len(sb))
+    stmts = [flat(x).replace(" ", "") for x in sb[0].split(";") if flat(x)]
+    for st in stmts:
+        if not re.fullmatch(r"[\w.]+\(\)", st):
+            raise OutOfGrammar("alm.hpp: statement %r of ALMSolver::stop() is not a nullary call" % st)
+    tables["g_stop_body"] = [(st, "") for st in stmts]
 
 
 REF_D = [  # REFERENCE kernels = the hand model; used ONLY when the source has left the grammar (recorded in the evidence)
@@ -585,8 +625,9 @@ REF_D = [  # REFERENCE kernels = the hand model; used ONLY when the source has l
     ("g_is_interrupted", "(st : status) : bool", "(is_interrupted st)", "(reference)"),
     ("g_alm_converged", "(P : alm_params (T:=T)) (eps : T) (inner_converged : bool) (norm_e : T) : bool",
      "(((eps <=? p_tol P) && inner_converged) && (norm_e <=? p_dual_tol P))", "(reference)"),
-    ("g_exit", "(alm_converged out_of_iter out_of_time : bool) : bool", "((alm_converged || out_of_iter) || out_of_time)", "(reference)"),
-    ("g_exit_status", "(alm_converged out_of_time out_of_iter : bool) : status", "exit_status alm_converged out_of_time out_of_iter", "(reference)"),
+    ("g_interrupted", "(stop_flag : bool) : bool", "stop_flag", "(reference)"),
+    ("g_exit", "(alm_converged out_of_iter out_of_time interrupted : bool) : bool", "(((alm_converged || out_of_iter) || out_of_time) || interrupted)", "(reference)"),
+    ("g_exit_status", "(alm_converged out_of_time out_of_iter interrupted : bool) : status", "exit_status alm_converged out_of_time out_of_iter interrupted", "(reference)"),
     ("g_call_update_penalty_weights", "(P : alm_params (T:=T)) (i : nat) (error error_old : list T) (norm_e norm_e_old : T) (Σ_curr : list T) : list T",
      "update_penalty_weights P (Nat.eqb i 0) error error_old norm_e norm_e_old Σ_curr", "(reference)"),
 ]
@@ -597,6 +638,7 @@ REF_Z = [
 REF_TABLES = {
     "g_opts_loop": [("always_overwrite_results", "true"), ("max_time", "time_remaining"), ("tolerance", "ε"), ("os", "os"), ("outer_iter", "i"), ("check", "false")],
     "g_opts_m0": [("always_overwrite_results", "true"), ("max_time", "params.max_time"), ("tolerance", "params.tolerance"), ("os", "os"), ("check", "false")],
+    "g_stop_body": [("stop_signal.stop()", ""), ("inner_solver.stop()", "")],
 }
 
 
@@ -619,7 +661,8 @@ def render_alm(D, Z, tables, origin):
         L += ["(* C++: %s   (durations as integer nanosecond counts) *)" % cmt(cpp), "Definition %s %s :=\n  %s." % (name, sig, body), ""]
     L.append("Local Open Scope string_scope.")
     for name in sorted(tables):
-        L += ["(* designated initialisers of InnerSolveOptions, as written *)",
+        L += ["(* statements of ALMSolver::stop() (outer/alm.hpp), as written *)" if name == "g_stop_body" else
+              "(* designated initialisers of InnerSolveOptions, as written *)",
               "Definition %s : list (string * string) :=\n  [%s]." % (name, "; ".join("(%s, %s)" % (cstr(k), cstr(v)) for k, v in tables[name])), ""]
     return "\n".join(L) + "\n"
 
@@ -703,6 +746,7 @@ def write(repo=None, outdir=None):
         gen_alm(repo, D2, Z, tables)
         D += D2
         origin.append(os.path.join(repo, ALM))
+        origin.append(os.path.join(repo, ALM_HPP))
     except (OutOfGrammar, OSError, UnicodeDecodeError) as ex:
         D += [d for d in REF_D if d[0] not in HELPER_KERNELS]
         Z, tables = list(REF_Z), dict(REF_TABLES)
